@@ -659,6 +659,13 @@ void phpy_set_index_permutation_symmetry_compact_fc(
                     for (l = 0; l < 3; l++) {
                         m = i_p * n_satom * 9 + j * 9 + k * 3 + l;
                         n = j_p * n_satom * 9 + i_trans * 9 + l * 3 + k;
+                        if (is_transpose && j_p == i_p && i_trans == j &&
+                            (i == j || l <= k)) {
+                            /* Block paired with itself: swap each (k,l),(l,k) */
+                            /* pair only once. The i == j block was already */
+                            /* transposed above. */
+                            continue;
+                        }
                         if (is_transpose) {
                             fc_elem = fc[m];
                             fc[m] = fc[n];
